@@ -5,7 +5,7 @@
 (*        safe_load -> from_dict -> compare as observed on the real code, in the     *)
 (*        vocabulary of Cards!Outcome:  "ok" | "not-plain:<kind>-in-<container>" |   *)
 (*        "safe-load-refused" | "load-failed:<exc>" | "differs:<class>" | "raw-failed:<exc>" *)
-(*  [src |-> "interp", declLog, declDeg, dispLog, dispDeg]  second clause            *)
+(*  [src |-> "interp", declLog, declDeg, dispLog, dispDeg, pts]  second clause       *)
 (* property grade: the verdict depends on the OBSERVED outcome only.                 *)
 (* conformance grade: the observed outcome is compared with the outcome the two      *)
 (* designs of Cards.tla predict for the same (T, v)  -> "CONF" lines (diagnostics).  *)
@@ -35,7 +35,8 @@ HasAliasArray(T) == \/ T.t = "array" /\ T.cls # "ndarray"
 
 Verdict(r) ==
   IF r.src = "interp"
-  THEN IF I!C40_Interp(r.declLog, r.declDeg, r.dispLog, r.dispDeg) THEN "ok"
+  THEN IF I!C40_Interp(r.declLog, r.declDeg, r.dispLog, r.dispDeg)
+       THEN IF I!C40_InterpGrid(r.pts) THEN "ok" ELSE "C40:interpolator-grid-points-differ-from-declared"
        ELSE IF r.dispLog # r.declLog THEN "C40:interpolator-ignores-is-log" ELSE "C40:interpolator-degree"
   ELSE CASE r.oc = "ok" -> "ok"
          [] r.oc = "not-plain" ->
